@@ -39,8 +39,10 @@ func c16Origin(c *Ctx) {
 	hi := c.Free("prefix_thousands", 1000)
 	lo := c.Free("prefix_units", 1000)
 	n := hi*1000 + lo
-	id := fmt.Sprintf("%06d_6..N01R", n)
-	td := &gtfsrt.TripDescriptor{TripId: &id, RouteId: sp("6")}
+	// five forms of NYCT trip ids, assigned by the prefix modulo 5: two-character routes are padded with ONE dot
+	form := n % 5
+	id := fmt.Sprintf([]string{"%06d_6..N01R", "%06d_GS.N01R", "%06d_SI.N03R", "%06d_7X.S", "%06d_A..S55R"}[form], n)
+	td := &gtfsrt.TripDescriptor{TripId: &id, RouteId: sp([]string{"6", "GS", "SI", "7X", "A"}[form])}
 	proto.SetExtension(td, gtfsrt.E_NyctTripDescriptor, &gtfsrt.NyctTripDescriptor{Direction: gtfsrt.NyctTripDescriptor_NORTH.Enum()})
 	m := newFeed(cp(&tsAlphabet[0]))
 	m.Entity = []*gtfsrt.FeedEntity{{Id: sp("e"), TripUpdate: &gtfsrt.TripUpdate{Trip: td}}}
@@ -590,7 +592,7 @@ func init() {
 	register(&Check{
 		ID:    "C16",
 		Level: "model_checking",
-		Rule: "(a) all 1 000 000 six-digit origin prefixes; (b) full product of entity kind x is_assigned x direction x train id x existing vehicle descriptor x trip-id kind x tracks x first-stop times (both sides of and equal to the feed timestamp) x stop-time count x header timestamp {set, absent, 0} x the trip update's own timestamp {absent, earlier, later}; tracks also: first stop without the NYCT stop-time extension (or with an empty one) and tracks at the later stops; x 4 option combinations; a stale unassigned trip update followed / preceded by plain and NYCT vehicle positions and a plain trip update; (c) transparency: route {M,J,-} x trip id {plain, two of the NYCT shape} x own start time x two stop ids over a 15-value alphabet x 4 options, and the rich C02 feed within 1 deviation x 4 options; " +
+		Rule: "(a) all 1 000 000 six-digit origin prefixes over five id forms (routes of one and two characters: _6..N01R, _GS.N01R, _SI.N03R, _7X.S, _A..S55R); (b) full product of entity kind x is_assigned x direction x train id x existing vehicle descriptor x trip-id kind x tracks x first-stop times (both sides of and equal to the feed timestamp) x stop-time count x header timestamp {set, absent, 0} x the trip update's own timestamp {absent, earlier, later}; tracks also: first stop without the NYCT stop-time extension (or with an empty one) and tracks at the later stops; x 4 option combinations; a stale unassigned trip update followed / preceded by plain and NYCT vehicle positions and a plain trip update; (c) transparency: route {M,J,-} x trip id {plain, two of the NYCT shape} x own start time x two stop ids over a 15-value alphabet x 4 options, and the rich C02 feed within 1 deviation x 4 options; " +
 			"non-trivial = distinct (message, options) pairs (origin prefixes below 600000); oracle = reference rules from the statement + differential against the extension-free parse",
 		Assumptions: []string{"direction is asserted for NORTH and SOUTH only", "the stale rule is not asserted when the first stop's departure is present with value 0 (indistinguishable from missing through proto2 getters)", "an assigned trip without a train id is not asserted to have a vehicle"},
 		Scenarios: func(tier string) []*Scenario {
